@@ -163,12 +163,17 @@ func TestC15Hook(t *testing.T) {
 
 func TestC19Hook(t *testing.T) {
 	vl := &violationLog{}
-	for _, when := range []string{"purge", "configured"} {
+	for _, when := range []string{"purge", "configured", "purge-deaf"} {
 		w := newHookWorld(t, "c19hook")
 		atomic.AddInt64(&vl.n, 1)
 		script := filepath.Join(w.dir, "hook.sh")
-		// the hook marks its start and then takes its time; at the purge it has no address in its environment
-		body := "#!/bin/sh\nif [ -n \"$PSA_DHCPC_IPV4_ADDRESS\" ]; then k=configured; else k=purge; fi\nif [ $k = " + when + " ]; then touch " + w.dir + "/started; exec sleep 25; fi\n"
+		// the hook marks its start and then takes its time; at the purge it has no address in its environment.
+		// "deaf": it ignores the polite signals (SIGTERM, SIGINT, SIGHUP): only a kill ends it
+		trap, at := "", when
+		if when == "purge-deaf" {
+			trap, at = "trap '' TERM INT HUP\n", "purge"
+		}
+		body := "#!/bin/sh\n" + trap + "if [ -n \"$PSA_DHCPC_IPV4_ADDRESS\" ]; then k=configured; else k=purge; fi\nif [ $k = " + at + " ]; then touch " + w.dir + "/started; exec sleep 25; fi\n"
 		os.WriteFile(script, []byte(body), 0o755)
 		ctx, cancel := context.WithCancel(context.Background())
 		mc := client.New(log.New(io.Discard, "", 0), w.iface, script, true)
@@ -204,5 +209,5 @@ func TestC19Hook(t *testing.T) {
 		w.drop()
 	}
 	vl.write(t, "c19hook", map[string]interface{}{"distinct_nontrivial": int(atomic.LoadInt64(&vl.n)), "histogram": map[string]int{"cancel-during-hook": int(atomic.LoadInt64(&vl.n))},
-		"samples": []string{"real client with a hook script that sleeps 25 s (at the purge; after the configuration): cancel 0.3 s after the hook started, Run must return within 3 s"}})
+		"samples": []string{"real client with a hook script that sleeps 25 s (at the purge; after the configuration; at the purge while ignoring TERM/INT/HUP): cancel 0.3 s after the hook started, Run must return within 3 s"}})
 }
